@@ -430,3 +430,563 @@ func TestVerifC16Sched(t *testing.T) {
 		vsRun(out, vsGen(r, out), models)
 	}
 }
+
+// ---------------------------------------------------------------------------------------------
+// pickBestFullFitByLibrary / pickBestPartialFitByLibrary
+//
+//   L1: returned GPU ids (in order) + *numParallel of the REAL functions == oracle c16pick / c16part
+//   L2: `full-fit-not-placed` — a non-nil full-fit result on which the real EstimateGPULayers (same list,
+//        same order, same options, same parallelism: what NewLlamaServer does next) does not place every
+//        requested layer; `full-fit-bad-list`, `partial-not-a-group`.
+
+type vpTensor struct {
+	Name  string `json:"n"`
+	Elems uint64 `json:"e"` // F32 elements
+}
+
+type vpCfg struct {
+	Kind       string     `json:"kind"` // "pick"
+	Arch       string     `json:"arch"`
+	Blocks     int        `json:"blocks"`
+	Heads      uint32     `json:"heads"`
+	HeadsKV    uint32     `json:"heads_kv"`
+	Emb        uint32     `json:"emb"`
+	Tensors    []vpTensor `json:"t"`
+	Projs      [][]uint64 `json:"projs,omitempty"` // per projector file: F32 element counts of its tensors
+	GPUs       []vsGPU    `json:"gpus"`
+	Variants   []string   `json:"variants,omitempty"` // per GPU
+	NumGPU     int        `json:"num_gpu"`
+	OrigNumCtx int        `json:"orig_num_ctx"`
+	NumBatch   int        `json:"num_batch"`
+	Parallel   int        `json:"parallel"` // requested *numParallel (<= 0: auto)
+	Spread     bool       `json:"spread,omitempty"`
+	Overhead   uint64     `json:"overhead"`
+	Tag        string     `json:"tag,omitempty"`
+}
+
+type vpLoaded struct {
+	f     *ggml.GGML
+	path  string
+	projs []string
+	projW []uint64
+}
+
+func vpWrite(path, arch string, kv ggml.KV, ts []vpTensor) {
+	kv["general.architecture"] = arch
+	kv["tokenizer.ggml.tokens"] = []string{"a", "b", "c"}
+	var tt []ggml.Tensor
+	for _, t := range ts {
+		tt = append(tt, ggml.Tensor{Name: t.Name, Kind: 0, Shape: []uint64{t.Elems}, WriterTo: bytes.NewReader(nil)})
+	}
+	f, err := os.Create(path)
+	if err != nil {
+		panic(err)
+	}
+	defer f.Close()
+	if err := ggml.WriteGGUF(f, kv, tt); err != nil {
+		panic(err)
+	}
+}
+
+func vpLoad(dir string, cfg *vpCfg) *vpLoaded {
+	l := &vpLoaded{path: filepath.Join(dir, "model.gguf")}
+	a := cfg.Arch
+	vpWrite(l.path, a, ggml.KV{
+		a + ".block_count":             uint32(cfg.Blocks),
+		a + ".embedding_length":        cfg.Emb,
+		a + ".attention.head_count":    cfg.Heads,
+		a + ".attention.head_count_kv": cfg.HeadsKV,
+		a + ".context_length":          uint32(8192),
+	}, cfg.Tensors)
+	g, err := llm.LoadModel(l.path, 0)
+	if err != nil {
+		panic(err)
+	}
+	l.f = g
+	for i, pt := range cfg.Projs {
+		pp := filepath.Join(dir, fmt.Sprintf("proj%d.gguf", i))
+		var ts []vpTensor
+		for k, e := range pt {
+			ts = append(ts, vpTensor{Name: fmt.Sprintf("v.blk.%d.attn_q.weight", k), Elems: e})
+		}
+		vpWrite(pp, "clip", ggml.KV{}, ts)
+		// what llm.projectorMemoryRequirements computes for a non-mllama projector: the sum of all layer sizes, graph 0
+		pf, err := llm.LoadModel(pp, 0)
+		if err != nil {
+			panic(err)
+		}
+		var w uint64
+		for _, layer := range pf.Tensors().GroupLayers() {
+			w += layer.Size()
+		}
+		l.projs = append(l.projs, pp)
+		l.projW = append(l.projW, w)
+	}
+	return l
+}
+
+func vpOptU(ok bool, v uint64) string {
+	if !ok {
+		return "-"
+	}
+	return strconv.FormatUint(v, 10)
+}
+
+// vpCommon: the estimator's derived inputs for parallelism p and context numCtx (the <common> block of
+// the oracle commands), recomputed with the exported functions the estimator calls.
+func vpCommon(cfg *vpCfg, l *vpLoaded, variant, numCtx, p int) string {
+	f := l.f
+	var sb strings.Builder
+	fmt.Fprintf(&sb, "%d %d %d %d", variant, cfg.NumGPU, cfg.Overhead, len(l.projs))
+	for i := range l.projs {
+		fmt.Fprintf(&sb, " %d 0", l.projW[i])
+		numCtx = max(numCtx, 2048)
+	}
+	vw, vg := f.VisionGraphSize()
+	fmt.Fprintf(&sb, " %d %d", vw, vg)
+	layers := f.Tensors().GroupLayers()
+	blk0, ok := layers["blk.0"]
+	var b0 uint64
+	if ok {
+		b0 = blk0.Size()
+	}
+	fmt.Fprintf(&sb, " %s", vpOptU(ok, b0))
+	kv, gp, gf := f.GraphSize(uint64(numCtx), uint64(min(numCtx, cfg.NumBatch)), p, "")
+	fmt.Fprintf(&sb, " %d", len(kv))
+	for i := range kv {
+		blk, ok := layers[fmt.Sprintf("blk.%d", i)]
+		var sz uint64
+		if ok {
+			sz = blk.Size()
+		}
+		fmt.Fprintf(&sb, " %s %d", vpOptU(ok, sz), kv[i])
+	}
+	fmt.Fprintf(&sb, " %d %d %d", gp, gf, f.KV().GQA())
+	for _, name := range []string{"output_norm", "output", "token_embd"} {
+		lay, ok := layers[name]
+		var sz uint64
+		if ok {
+			sz = lay.Size()
+		}
+		fmt.Fprintf(&sb, " %s", vpOptU(ok, sz))
+	}
+	return sb.String()
+}
+
+func vpLibTok(lib string) string {
+	if lib == "cpu" || lib == "metal" {
+		return lib
+	}
+	return "gpu"
+}
+
+func vpInventory(cfg *vpCfg) discover.GpuInfoList {
+	var l discover.GpuInfoList
+	for i, g := range cfg.GPUs {
+		gi := discover.GpuInfo{Library: g.Lib, ID: fmt.Sprintf("G%d", i), MinimumMemory: g.Min}
+		if i < len(cfg.Variants) {
+			gi.Variant = cfg.Variants[i]
+		}
+		gi.FreeMemory = g.Free
+		gi.TotalMemory = g.Total
+		l = append(l, gi)
+	}
+	return l
+}
+
+func vpGpuToks(gpus discover.GpuInfoList) string {
+	keys := map[string]int{}
+	var sb strings.Builder
+	fmt.Fprintf(&sb, "%d", len(gpus))
+	for _, x := range gpus {
+		k := x.Library
+		if x.Variant != "" {
+			k += "_" + x.Variant
+		}
+		if _, ok := keys[k]; !ok {
+			keys[k] = len(keys)
+		}
+		id, _ := strconv.Atoi(strings.TrimPrefix(x.ID, "G"))
+		fmt.Fprintf(&sb, " %d %d %s %d %d", keys[k], id, vpLibTok(x.Library), x.FreeMemory, x.MinimumMemory)
+	}
+	return sb.String()
+}
+
+func vpIds(l discover.GpuInfoList) string {
+	if len(l) == 0 {
+		return "-"
+	}
+	parts := make([]string, len(l))
+	for i, g := range l {
+		parts[i] = strings.TrimPrefix(g.ID, "G")
+	}
+	return strings.Join(parts, ",")
+}
+
+// vpVariant: which overhead comparisons the estimator of this tree implements (see the llm driver).
+func vpVariant(l *vpLoaded) int {
+	if v := os.Getenv("VERIF_C16_VARIANT"); v != "" {
+		return zzverif.EnvInt("VERIF_C16_VARIANT", 0)
+	}
+	old := os.Getenv("OLLAMA_GPU_OVERHEAD")
+	os.Setenv("OLLAMA_GPU_OVERHEAD", strconv.FormatUint(^uint64(0), 10))
+	defer os.Setenv("OLLAMA_GPU_OVERHEAD", old)
+	g := discover.GpuInfo{Library: "cuda", ID: "0"}
+	g.FreeMemory = 1 << 50
+	e := llm.EstimateGPULayers([]discover.GpuInfo{g}, l.f, nil, api.DefaultOptions(), 1)
+	if e.Layers > 0 {
+		return 0
+	}
+	return 1
+}
+
+func vpReq(cfg *vpCfg, l *vpLoaded) *LlmRequest {
+	opts := api.DefaultOptions()
+	opts.NumGPU = cfg.NumGPU
+	opts.NumBatch = cfg.NumBatch
+	opts.NumCtx = cfg.OrigNumCtx
+	if cfg.Parallel > 0 {
+		opts.NumCtx = cfg.OrigNumCtx * cfg.Parallel // what processPending does for an explicit parallel setting
+	}
+	return &LlmRequest{ctx: context.Background(), model: &Model{ModelPath: l.path, ProjectorPaths: l.projs}, opts: opts, origNumCtx: cfg.OrigNumCtx}
+}
+
+func vpRun(out *zzverif.Out, cfg *vpCfg, l *vpLoaded, variant int) {
+	js, err := json.Marshal(cfg)
+	if err != nil {
+		panic(err)
+	}
+	caseLine := string(js)
+	os.Setenv("OLLAMA_GPU_OVERHEAD", strconv.FormatUint(cfg.Overhead, 10))
+	if cfg.Spread {
+		os.Setenv("OLLAMA_SCHED_SPREAD", "1")
+	} else {
+		os.Setenv("OLLAMA_SCHED_SPREAD", "")
+	}
+	inv := vpInventory(cfg)
+	blocks := int(l.f.KV().BlockCount())
+
+	// ---- full fit
+	tries := []int{cfg.Parallel}
+	if cfg.Parallel <= 0 {
+		tries = []int{defaultParallel, 1}
+	}
+	var sb strings.Builder
+	fmt.Fprintf(&sb, "c16pick %d %d %d %d", map[bool]int{false: 0, true: 1}[cfg.Spread], cfg.Parallel, defaultParallel, len(tries))
+	for _, p := range tries {
+		fmt.Fprintf(&sb, " %d %s", p, vpCommon(cfg, l, variant, cfg.OrigNumCtx*p, p))
+	}
+	sb.WriteString(" " + vpGpuToks(inv))
+	req := vpReq(cfg, l)
+	np := cfg.Parallel
+	var got discover.GpuInfoList
+	impl := ""
+	func() {
+		defer func() {
+			if x := recover(); x != nil {
+				impl = "panic:" + strings.ReplaceAll(fmt.Sprint(x), "\n", " ")
+			}
+		}()
+		got = pickBestFullFitByLibrary(req, l.f, append(discover.GpuInfoList(nil), inv...), &np)
+		if got == nil {
+			impl = "nil"
+		} else {
+			impl = fmt.Sprintf("ids=%s p=%d", vpIds(got), np)
+		}
+	}()
+	out.Case(sb.String(), impl)
+	out.Count("pick_cases")
+	out.Count(fmt.Sprintf("pick_ngpus_%d", len(inv)))
+	if cfg.Tag != "" {
+		out.Count("pick_gen_" + cfg.Tag)
+	}
+	if strings.HasPrefix(impl, "panic:") {
+		out.L2("panic", caseLine, impl)
+		return
+	}
+	want := func(layers int) bool {
+		if cfg.NumGPU < 0 {
+			return layers == blocks+1
+		}
+		return layers > 0 && layers == cfg.NumGPU
+	}
+	switch {
+	case got == nil:
+		out.Count("pick_full_nil")
+	default:
+		if len(got) == 1 {
+			out.Count("pick_full_single")
+		} else {
+			out.Count("pick_full_multi")
+		}
+		out.Count(fmt.Sprintf("pick_full_p_%d", np))
+		// the list must be non-empty, from the inventory, of one library key
+		okList := len(got) > 0
+		for _, g := range got {
+			found := false
+			for _, x := range inv {
+				if x.ID == g.ID && x.Library == g.Library && x.FreeMemory == g.FreeMemory {
+					found = true
+				}
+			}
+			if !found || g.Library != got[0].Library || g.Variant != got[0].Variant {
+				okList = false
+			}
+		}
+		inTries := false
+		for _, p := range tries {
+			if p == np {
+				inTries = true
+			}
+		}
+		if !okList || !inTries {
+			out.L2("full-fit-bad-list", caseLine, fmt.Sprintf("returned %s p=%d", vpIds(got), np))
+		}
+		// what NewLlamaServer does next: the estimator on the returned list, same order, same options
+		e := llm.EstimateGPULayers(append(discover.GpuInfoList(nil), got...), l.f, l.projs, req.opts, np)
+		if !want(e.Layers) {
+			out.L2("full-fit-not-placed", caseLine, fmt.Sprintf("full fit declared on [%s] with numParallel=%d NumCtx=%d, but the estimator on that list places %d of %d layers (num_gpu=%d, split=%q)",
+				vpIds(got), np, req.opts.NumCtx, e.Layers, blocks+1, cfg.NumGPU, e.TensorSplit))
+		}
+		if len(got) > 1 {
+			// coverage: is the estimate sensitive to the order of this list? (enumeration order of the same GPUs)
+			var enum discover.GpuInfoList
+			for _, x := range inv {
+				for _, g := range got {
+					if x.ID == g.ID {
+						enum = append(enum, x)
+					}
+				}
+			}
+			e2 := llm.EstimateGPULayers(enum, l.f, l.projs, req.opts, np)
+			if vpIds(enum) != vpIds(got) {
+				out.Count("pick_full_multi_reordered")
+				if want(e.Layers) && !want(e2.Layers) {
+					out.Count("pick_full_multi_order_sensitive")
+				}
+			}
+		}
+	}
+
+	// ---- partial fit
+	req2 := vpReq(cfg, l)
+	np2 := cfg.Parallel
+	pp := cfg.Parallel
+	ctx2 := req2.opts.NumCtx
+	if pp <= 0 {
+		pp = 1
+		ctx2 = cfg.OrigNumCtx
+	}
+	op2 := "c16part " + vpCommon(cfg, l, variant, ctx2, pp) + " " + vpGpuToks(inv)
+	impl2 := ""
+	var got2 discover.GpuInfoList
+	func() {
+		defer func() {
+			if x := recover(); x != nil {
+				impl2 = "panic:" + strings.ReplaceAll(fmt.Sprint(x), "\n", " ")
+			}
+		}()
+		got2 = pickBestPartialFitByLibrary(req2, l.f, append(discover.GpuInfoList(nil), inv...), &np2)
+		impl2 = "ids=" + vpIds(got2)
+	}()
+	out.Case(op2, impl2)
+	if strings.HasPrefix(impl2, "panic:") {
+		out.L2("panic", caseLine, impl2)
+		return
+	}
+	groups := inv.ByLibrary()
+	isGroup := vpIds(got2) == vpIds(inv)
+	for _, g := range groups {
+		if vpIds(g) == vpIds(got2) {
+			isGroup = true
+		}
+	}
+	if !isGroup || np2 != pp {
+		out.L2("partial-not-a-group", caseLine, fmt.Sprintf("returned %s numParallel=%d", vpIds(got2), np2))
+	}
+	out.Count(fmt.Sprintf("pick_partial_groups_%d", len(groups)))
+}
+
+func vpGen(r *zzverif.Rng) *vpCfg {
+	cfg := &vpCfg{Kind: "pick", Arch: zzverif.Pick(r, []string{"llama", "llama", "qwen2", "verifarch"}),
+		Heads: 32, HeadsKV: uint32(zzverif.Pick(r, []int{8, 32})), Emb: uint32(zzverif.Pick(r, []int{1024, 4096}))}
+	cfg.Blocks = r.Range(1, 24)
+	base := uint64(1) << uint(r.Range(18, 27)) // elements: 1 MiB .. 512 MiB per tensor
+	uneven := r.Intn(3)
+	for i := 0; i < cfg.Blocks; i++ {
+		e := base
+		switch uneven {
+		case 1:
+			e = base + r.U64()%(base/4+1)
+		case 2:
+			e = base/8 + r.U64()%(base*2)
+		}
+		if cfg.Blocks > 2 && r.Chance(1, 30) {
+			continue // a block without tensors
+		}
+		cfg.Tensors = append(cfg.Tensors, vpTensor{Name: fmt.Sprintf("blk.%d.attn_q.weight", i), Elems: e})
+	}
+	cfg.Tensors = append(cfg.Tensors, vpTensor{Name: "token_embd.weight", Elems: base/2 + 1})
+	if r.Bool() {
+		cfg.Tensors = append(cfg.Tensors, vpTensor{Name: "output.weight", Elems: base/2 + uint64(r.Intn(4096)) + 1})
+	}
+	if r.Chance(3, 4) {
+		cfg.Tensors = append(cfg.Tensors, vpTensor{Name: "output_norm.weight", Elems: uint64(r.Range(1, 8192))})
+	}
+	if r.Chance(2, 5) { // projector(s): gpu-zero overhead, makes the estimate depend on which GPU comes first
+		np := r.Range(1, 2)
+		for i := 0; i < np; i++ {
+			var ts []uint64
+			for k := 0; k < r.Range(1, 3); k++ {
+				ts = append(ts, base*uint64(r.Range(1, 6))/2+1)
+			}
+			cfg.Projs = append(cfg.Projs, ts)
+		}
+	}
+	cfg.OrigNumCtx = zzverif.Pick(r, []int{512, 2048, 2048, 4096})
+	cfg.NumBatch = zzverif.Pick(r, []int{512, 512, 128})
+	cfg.Parallel = zzverif.Pick(r, []int{0, 0, 0, 1, 1, 2, -1})
+	cfg.Spread = r.Chance(1, 6)
+	if r.Chance(1, 5) {
+		cfg.Overhead = uint64(r.Range(1, 2048)) << 20
+	}
+	switch r.Intn(10) {
+	case 0:
+		cfg.NumGPU = cfg.Blocks + 1
+	case 1:
+		cfg.NumGPU = r.Range(1, cfg.Blocks+1)
+	case 2:
+		cfg.NumGPU = zzverif.Pick(r, []int{0, 999})
+	default:
+		cfg.NumGPU = -1
+	}
+	return cfg
+}
+
+// vpGenGPUs draws an inventory whose free memory is scaled to `need` (bytes the model needs in total).
+func vpGenGPUs(r *zzverif.Rng, cfg *vpCfg, need uint64) {
+	n := r.Range(2, 5)
+	if r.Chance(1, 5) {
+		n = r.Range(1, 8)
+	}
+	libs := []string{"cuda", "cuda", "rocm", "oneapi", "metal"}
+	lib := zzverif.Pick(r, libs)
+	lib2 := zzverif.Pick(r, libs)
+	mixed := r.Chance(1, 4)
+	cfg.GPUs, cfg.Variants = nil, nil
+	mode := r.Intn(6)
+	cfg.Tag = []string{"single_fits", "sum_fits", "sum_fits_small_first", "sum_near", "none_fits", "random"}[mode]
+	for i := 0; i < n; i++ {
+		g := vsGPU{Lib: lib, Min: zzverif.Pick(r, []uint64{0, 0, 457 << 20, uint64(r.Intn(256 << 20))})}
+		v := ""
+		if mixed {
+			switch r.Intn(3) {
+			case 0:
+				g.Lib = lib2
+			case 1:
+				v = "v12"
+			}
+		}
+		share := need/uint64(n) + 1
+		switch mode {
+		case 0:
+			g.Free = need/8*uint64(r.Range(2, 12)) + g.Min
+		case 1:
+			g.Free = share/8*uint64(r.Range(9, 20)) + need/16 + g.Min
+		case 2:
+			if i == 0 {
+				g.Free = share/16*uint64(r.Range(2, 12)) + need/16 + g.Min
+			} else {
+				g.Free = need/uint64(max(n-1, 1))/8*uint64(r.Range(8, 14)) + need/16 + g.Min
+			}
+		case 3:
+			g.Free = share/32*uint64(r.Range(30, 52)) + need/16 + g.Min
+		case 4:
+			g.Free = share / 16 * uint64(r.Range(0, 10))
+		default:
+			g.Free = need/16*uint64(r.Range(0, 24)) + uint64(r.Intn(1<<20))
+		}
+		if len(cfg.GPUs) > 0 && r.Chance(1, 12) {
+			g.Free = cfg.GPUs[r.Intn(len(cfg.GPUs))].Free // a tie in free memory (stable sort)
+		}
+		g.Total = g.Free + uint64(r.Intn(1<<30))
+		cfg.GPUs = append(cfg.GPUs, g)
+		cfg.Variants = append(cfg.Variants, v)
+	}
+}
+
+func TestVerifC16Pick(t *testing.T) {
+	slog.SetDefault(slog.New(slog.NewTextHandler(io.Discard, nil)))
+	t.Setenv("OLLAMA_FLASH_ATTENTION", "")
+	t.Setenv("OLLAMA_KV_CACHE_TYPE", "")
+	t.Setenv("OLLAMA_GPU_OVERHEAD", "0")
+	t.Setenv("OLLAMA_SCHED_SPREAD", "")
+	out := zzverif.NewOut()
+	defer out.Close()
+	base := t.TempDir()
+
+	one := func(cfg *vpCfg) {
+		dir, err := os.MkdirTemp(base, "p")
+		if err != nil {
+			t.Fatal(err)
+		}
+		defer os.RemoveAll(dir)
+		l := vpLoad(dir, cfg)
+		vpRun(out, cfg, l, vpVariant(l))
+	}
+	if rp := os.Getenv("VERIF_REPLAY"); rp != "" {
+		raw, err := os.ReadFile(rp)
+		if err != nil {
+			t.Fatal(err)
+		}
+		var cfg vpCfg
+		if err := json.Unmarshal(bytes.TrimSpace(raw), &cfg); err != nil || cfg.Kind != "pick" {
+			t.Skip("replay case is not a C16 pick configuration")
+		}
+		one(&cfg)
+		return
+	}
+	if cd := os.Getenv("VERIF_CORPUS"); cd != "" {
+		files, _ := filepath.Glob(cd + "/pick-*.json")
+		for _, fn := range files {
+			raw, err := os.ReadFile(fn)
+			if err != nil {
+				t.Fatal(err)
+			}
+			var cfg vpCfg
+			if err := json.Unmarshal(bytes.TrimSpace(raw), &cfg); err != nil {
+				t.Fatalf("%s: %v", fn, err)
+			}
+			cfg.Tag = "corpus"
+			one(&cfg)
+		}
+	}
+	target := zzverif.EnvInt("VERIF_N", 1500)
+	root := zzverif.NewRng(zzverif.Seed() ^ 0xF17)
+	cases := 0
+	for cases < target {
+		r := root.Fork()
+		cfg := vpGen(r)
+		dir, err := os.MkdirTemp(base, "m")
+		if err != nil {
+			t.Fatal(err)
+		}
+		l := vpLoad(dir, cfg)
+		variant := vpVariant(l)
+		// total requirement with unlimited memory (scales the inventory)
+		os.Setenv("OLLAMA_GPU_OVERHEAD", "0")
+		big := discover.GpuInfo{Library: "cuda", ID: "big"}
+		big.FreeMemory = 1 << 60
+		o := api.DefaultOptions()
+		o.NumCtx = cfg.OrigNumCtx
+		o.NumBatch = cfg.NumBatch
+		need := llm.EstimateGPULayers([]discover.GpuInfo{big}, l.f, l.projs, o, 1).TotalSize
+		for k := 0; k < 8; k++ {
+			rr := r.Fork()
+			vpGenGPUs(rr, cfg, need)
+			vpRun(out, cfg, l, variant)
+			cases++
+		}
+		os.RemoveAll(dir)
+	}
+}
